@@ -2,4 +2,7 @@
 
 package decoration // import "go.pennock.tech/tabular/texttable/decoration"
 
-func simYield(string) {}
+import "sync"
+
+// registryMutex guards the registry; it is plain sync.Mutex in normal builds.
+type registryMutex = sync.Mutex
